@@ -248,12 +248,21 @@ static char *read_text(int doc, size_t *len)
 		t = strdup("");
 	else if (doc == NSIZES + 5)
 		t = strdup("[[[1]]]"); /* innermost value enclosed by exactly 3 containers: refused at limit 3, accepted at 4 */
-	else
+	else if (doc == NSIZES + 6)
 		t = strdup("[1]");     /* refused at limit 1 */
+	else
+	{
+		/* nested 35 deep: refused at the default limit 32, accepted at an explicit limit of 40 */
+		t = malloc(80);
+		memset(t, '[', 35);
+		t[35] = '1';
+		memset(t + 36, ']', 35);
+		t[71] = 0;
+	}
 	*len = strlen(t);
 	return t;
 }
-#define NREADDOCS (NSIZES + 7)
+#define NREADDOCS (NSIZES + 8)
 static sb_t dref, dgot;
 static void explore_read(int doc, int depth, int from_file, int bound)
 {
@@ -342,13 +351,13 @@ static void enumerate(void)
 				explore_write(doc, flagsets[f], to_file, small ? 99 : (doc >= 8 && doc < NSIZES && bound > 2) ? (doc == 10 ? 2 : 3) : bound);
 			}
 	for (int doc = 0; doc < NREADDOCS; doc++)
-		for (int variant = 0; variant < 7; variant++)
+		for (int variant = 0; variant < 8; variant++)
 		{
-			int small = doc < 3 || doc >= NSIZES + 1;
+			int small = doc < 3 || (doc >= NSIZES + 1 && doc != NSIZES + 7); /* <= 12 bytes: all compositions; the 71-byte nest is bounded */
 			all_sizes = small;
 			if (variant >= 4 && doc < NSIZES)
 				continue; /* the extra depth limits (1, 4, 0) on the small documents only */
-			int depth = variant == 1 ? 3 : variant == 2 ? 32 : variant == 4 ? 1 : variant == 5 ? 4 : variant == 6 ? 0 : -1;
+			int depth = variant == 1 ? 3 : variant == 2 ? 32 : variant == 4 ? 1 : variant == 5 ? 4 : variant == 6 ? 0 : variant == 7 ? 40 : -1;
 			explore_read(doc, depth, variant == 3, small ? 99 : (doc >= 8 && doc < NSIZES && bound > 2) ? (doc == 10 ? 2 : 3) : bound);
 		}
 	/* argument errors and unopenable files */
